@@ -1,14 +1,18 @@
 """C13 - any file content is either rejected with an error or yields a runnable DAG (DESIGN.md section 5, C13).
 
-proof          coq/Props/C13.v (Loader/Proofs.v): for ALL decoded definitions and options the builder model never
-               panics / accepts only well-formed, serialisable DAGs - outside the input classes of F13a-g, which the
-               faithful model refutes (`_refuted` witnesses) and the `_partial` theorems exclude by explicit premises.
+proof          coq/Props/C13.v (Loader/Proofs.v, DecodeProofs.v, LoadProofs.v, CronPlug.v): for ALL untyped trees, options
+               and environments the loader model (decode + build, following the repaired code) never panics; every
+               accepted step / handler has a name, a valid signal and something to execute; every accepted schedule
+               parses; evaluating conditions never crashes.  Not repaired: F13f (status not serialisable for executor
+               config holding a mapping inside a list or NaN / Inf) - `_refuted` witness + `_partial` theorem.
 correspondence harness/cmd/load: definition trees (grammar + mutations + systematic streams) rendered to YAML, through
                LoadYAML / LoadMetadata / LoadWithoutEval / Load of /repo; outcome class, projected DAG, environment
                difference, JSON round trip of the status, EvalConditions - compared with the model on the same tree.
-monitor        the property itself on what the implementation did: no panic from any entry point; accepted => every
-               step / handler named and executable, schedules parse, signals valid, status marshals and reads back,
-               evaluating an accepted condition does not crash.
+monitor        the property itself on what the implementation did, judged by independent criteria (not by the model): no
+               panic from any entry point; accepted => one step per element of `steps:` and one handler per entry of
+               `handlerOn:` (the steps were validated), each named and executable, schedules parse, the STORED signal
+               names are valid (unix.SignalNum != 0), status marshals and reads back, evaluating an accepted condition
+               does not crash; what LoadYAML accepts, LoadWithoutEval accepts too.
 raw bytes      random bytes / damaged fixtures / deep nesting / alias bombs in a guarded child process: crashes only
                (robustness testing in support - no theorem speaks about the YAML library).
 """
@@ -48,6 +52,14 @@ def monitor_case(c):
                            {"defect": "unparseable-schedule"})
         if e not in FULL:
             continue
+        # a full entry point must have looked at every step / handler definition of the document: the accepted DAG
+        # holds one step per element of `steps:` and one handler per non-null entry of `handlerOn:`
+        want_steps, want_handlers = defined_steps(tree)
+        got_handlers = sorted(h for h in ("exit", "success", "failure", "cancel") if d["handlers"].get(h) is not None)
+        if want_steps is not None and (len(d["steps"]) != want_steps or got_handlers != want_handlers):
+            yield ("%s accepted the document but its DAG has %d step(s) and handlers %s where the document defines %d step(s) and "
+                   "handlers %s: the steps were not validated" % (ep, len(d["steps"]), got_handlers, want_steps, want_handlers),
+                   {"defect": "steps-not-validated", "entry": ep})
         for name, where, s in step_list(d):
             if s["name"] == "":
                 yield ("%s accepted %s without a name" % (ep, name), {"defect": "unnamed-step"})
@@ -64,6 +76,30 @@ def monitor_case(c):
                 shape = "invalid-regexp-in-expected" if cd["expected"] in oracle.get("rebad", []) else "unexplained"
                 yield ("EvalConditions on the accepted condition %s (expected %r) panicked at %s" % (cd["where"], cd["expected"], cd.get("at")),
                        {"defect": "condition-panic", "at": cd.get("at"), "shape": shape})
+
+
+def defined_steps(tree):
+    """(number of elements of `steps:`, sorted handler names defined) of a document whose root is a mapping"""
+    if L.kind(tree) != "map":
+        return None, None
+    ss = L.get_fold(tree, "steps")
+    n = len(ss) if L.kind(ss) == "list" else 0
+    hs = []
+    h = L.get_fold(tree, "handlerOn")
+    if L.kind(h) == "map":
+        for k, v in h["m"]:
+            if isinstance(k, str) and v is not None and k.lower() in ("exit", "success", "failure", "cancel"):
+                hs.append(k.lower())
+    return n, sorted(hs)
+
+
+def cross_entry(c):
+    """The validating entry point against the loading ones, on the same bytes: what LoadYAML accepts (DAGStore.UpdateSpec
+    saves it) must be accepted by LoadWithoutEval (the file is then viewed / scheduled through it)."""
+    y, n = c["res"]["yaml"], c["res"]["noeval"]
+    if y["cls"] == "ok" and n["cls"] != "ok":
+        yield ("LoadYAML accepts a document (it passes validation on save) that LoadWithoutEval rejects: %s" % (n.get("err") or n.get("msg")),
+               {"defect": "validation-weaker-than-load", "entry": "LoadYAML"})
 
 
 def monitor_raw(c):
@@ -103,11 +139,18 @@ def gen(ctx, tool, seed, tier, tag):
     return vlib.read_jsonl(p), out
 
 
+def all_monitors(c):
+    if c["kind"] != "c13":
+        return list(monitor_raw(c))
+    return list(monitor_case(c)) + list(cross_entry(c))
+
+
 def failing_keys(c):
-    return sorted({json.dumps(cls, sort_keys=True) for _, cls in (monitor_case(c) if c["kind"] == "c13" else monitor_raw(c))})
+    return sorted({json.dumps(cls, sort_keys=True) for _, cls in all_monitors(c)})
 
 
 def run(ctx, replay_cases=None):
+    L.refresh_known(ctx)
     ctx.proofs(extra=["Loader/Check.vo"])
     tool, out, _ = vlib.go_build("load", ctx.scratch)
     if tool is None:
@@ -138,7 +181,7 @@ def run(ctx, replay_cases=None):
     n_unknown = 0
     shrunk = {}
     for c in trees:
-        for what, cls in monitor_case(c):
+        for what, cls in all_monitors(c):
             k = ctx.match_known(cls, "monitor")
             case = slim(c)
             if k is None:
@@ -237,7 +280,9 @@ def run(ctx, replay_cases=None):
     ]
     ctx.assumptions = ["the byte->tree stage (yaml.v2) is library code: not verified, exercised by the raw-bytes stream for crashes only",
                        "theorems about `build` hold for every decoded definition and every value of the library parameters; "
-                       "the premises of the _partial theorems are the excluded input classes (known findings F13a-g)"]
+                       "the one hypothesis of the generic no-panic theorems (the cron library panics only on a bare TZ= prefix) is "
+                       "proved for the Cron model (coq/Loader/CronPlug.v); the premise of the one _partial theorem is the excluded "
+                       "input class of the unrepaired defect F13f"]
     cron_agreement(ctx, trees)
     if ctx.tier == "thorough":
         ctx.coqchk()
@@ -246,7 +291,7 @@ def run(ctx, replay_cases=None):
         for i in range(1, 4):
             more, _ = gen(ctx, tool, ctx.seed + 7919 * i, "quick", "search%d" % i)
             for c in more or []:
-                it = monitor_case(c) if c.get("kind") == "c13" else monitor_raw(c) if c.get("kind") == "raw" else []
+                it = all_monitors(c) if c.get("kind") in ("c13", "raw") else []
                 for what, cls in it:
                     if ctx.match_known(cls, "monitor") is None:
                         return {"what": what, "class": cls, "case": slim(c)}
